@@ -18,10 +18,11 @@ import (
 	"oss.terrastruct.com/d2/d2compiler"
 	"oss.terrastruct.com/d2/d2graph"
 	"oss.terrastruct.com/d2/d2ir"
+	"oss.terrastruct.com/d2/d2target"
 )
 
 func init() {
-	register(&Prop{ID: "C09", Module: "V.C09.Check", Gen: c09Gen, Quick: 700, Thorough: 12000, Shard: 60})
+	register(&Prop{ID: "C09", Module: "V.C09.Check", Gen: c09Gen, Quick: 1000, Thorough: 12000, Shard: 70})
 }
 
 const c09Main = "index.d2"
@@ -51,6 +52,7 @@ type c09Board struct {
 	Store []c09Obj
 	Objs  []int
 	Edges []c09Edge
+	Tabs  []int // numbers of the objects whose shape is class or sql_table
 	OPos  []int64
 	EPos  []int64
 }
@@ -118,6 +120,9 @@ func c09Snapshot(g *d2graph.Graph, path string) *c09Board {
 	for i := 0; i < len(order) && i < 3000; i++ {
 		o := order[i]
 		so := c09Obj{ptr: o, ID: o.ID, Name: c09RefName(o), Parent: add(o.Parent), Graph: 1}
+		if o.Shape.Value == d2target.ShapeClass || o.Shape.Value == d2target.ShapeSQLTable {
+			b.Tabs = append(b.Tabs, i)
+		}
 		if o.Graph == g {
 			so.Graph = 0
 		}
@@ -207,7 +212,7 @@ func (b *c09Board) coqEdges() string {
 }
 
 func (b *c09Board) coq() string {
-	return fmt.Sprintf("(Board %s\n    %s %s %s %s)", b.coqStore(), c09NatList(b.Objs), b.coqEdges(), c09PosList(b.OPos), c09PosList(b.EPos))
+	return fmt.Sprintf("(Board %s\n    %s %s %s %s %s)", b.coqStore(), c09NatList(b.Objs), b.coqEdges(), c09NatList(b.Tabs), c09PosList(b.OPos), c09PosList(b.EPos))
 }
 
 func (b *c09Board) json() map[string]any {
@@ -434,8 +439,24 @@ func (g *c09G) coreStmt(d int, b *strings.Builder) {
 		}
 	case p < 95:
 		fmt.Fprintf(b, "%s%s: %s\n", ind(d), g.edge(), g.label())
-	default:
+	case p < 97:
 		fmt.Fprintf(b, "%s%s; %s\n", ind(d), g.keyPath(2), g.keyPath(2))
+	default:
+		// class / sql_table shapes: their fields are not objects, connections to fields end at the table
+		tn := g.r.Pick([]string{"tbl", "tbl2", "Tbl", "cls", "\"t.1\""})
+		fmt.Fprintf(b, "%s%s: {\n%sshape: %s\n", ind(d), tn, ind(d+1), g.r.Pick([]string{"sql_table", "class"}))
+		n := g.r.Range(0, 4)
+		for i := 0; i < n; i++ {
+			fmt.Fprintf(b, "%s%s\n", ind(d+1), g.r.Pick([]string{"id: int", "name", "ID", "\"a.b\": t", "fk: int {constraint: foreign_key}", "İ: x", "i"}))
+		}
+		if g.r.Chance(0.3) {
+			fmt.Fprintf(b, "%s%s\n", ind(d+1), g.r.Pick([]string{"id -> name", "id -> id", "zz <- id"}))
+		}
+		fmt.Fprintf(b, "%s}\n", ind(d))
+		if g.r.Chance(0.6) {
+			fmt.Fprintf(b, "%s%s.%s %s %s\n", ind(d), tn, g.r.Pick([]string{"id", "name", "zz"}), g.r.Pick(c09Arrows),
+				g.r.Pick([]string{"tbl.id", "tbl2.id", "cls.name", g.keyPath(2)}))
+		}
 	}
 }
 
@@ -600,6 +621,11 @@ func (g *c09G) fullStmt(d int, b *strings.Builder) {
 }
 
 func (g *c09G) body(d int, n int, b *strings.Builder) {
+	if d == g.base && g.r.Chance(0.02) {
+		// the board itself declared as a class / sql_table
+		g.feat["rootshape"] = true
+		fmt.Fprintf(b, "%sshape: %s\n", ind(d), g.r.Pick([]string{"class", "sql_table"}))
+	}
 	for i := 0; i < n; i++ {
 		if g.full {
 			g.fullStmt(d, b)
@@ -706,6 +732,10 @@ var c09Corpus = []c09Prog{
 	{Text: "t: {shape: sql_table; id: int; name: string}\nu: {shape: sql_table; id: int}\nt.id -> u.id\nt.name -> t.id\n"},
 	{Text: "c: {shape: class; +f: int; \"m()\": void; f -> g}\nc.f -> d\n"},
 	{Text: "a.b -> c; a.shape: class\n"},
+	{Text: "shape: class\nx -> y\n", Core: true},
+	{Text: "shape: class\nx; y\n", Core: true},
+	{Text: "x\nlayers: {l: {shape: sql_table; id: int; id -> name}}\n"},
+	{Text: "tbl: {shape: sql_table; id: int; name; id -> name}\ntbl2: {shape: class; f}\ntbl.id -> tbl2.f\nq -> tbl.zz\ntbl.id -> tbl.name\n", Core: true},
 	{Text: "a: {shape: sql_table; x -> y}\n"},
 	{Text: "a: {x; y}\na.shape: sql_table\na.x -> a.y\n"},
 	{Text: "s: {shape: sequence_diagram; alice -> bob; bob.t -> alice.t; g: {alice -> bob}; alice.alice -> bob}\n"},
@@ -786,10 +816,31 @@ func c09StrList(xs []d2ast.String) string {
 
 // operation list of a core-fragment program, read off the IR in the order compileMap visits it
 func c09Ops(m *d2ir.Map, scope []d2ast.String, out *[]string, ok *bool) {
+	table := false
 	for _, f := range m.Fields {
 		if f.Name == nil {
 			*ok = false
 			return
+		}
+		if f.Name.IsUnquoted() && (f.Name.ScalarString() == "shape" || f.Name.ScalarString() == "constraint") {
+			// reserved fields of the core+tables fragment: they create no object; shape: class / sql_table
+			// makes compileMap call compileClass / compileSQLTable after the fields
+			if f.Composite != nil || f.Primary() == nil || f.Primary().Value == nil {
+				*ok = false
+				return
+			}
+			if f.Name.ScalarString() == "shape" {
+				v := f.Primary().Value.ScalarString()
+				switch v {
+				case d2target.ShapeClass, d2target.ShapeSQLTable:
+					table = true
+				case "circle", "hexagon", "rectangle", "square", "cylinder", "person", "oval", "diamond", "cloud", "queue", "package":
+				default:
+					*ok = false
+					return
+				}
+			}
+			continue
 		}
 		if f.Name.IsUnquoted() {
 			low := strings.ToLower(f.Name.ScalarString())
@@ -809,6 +860,9 @@ func c09Ops(m *d2ir.Map, scope []d2ast.String, out *[]string, ok *bool) {
 		if f.Composite != nil && f.Map() == nil {
 			*ok = false
 		}
+	}
+	if table {
+		*out = append(*out, fmt.Sprintf("OpTable %s", c09StrList(scope)))
 	}
 	for _, e := range m.Edges {
 		if e.ID == nil {
@@ -967,12 +1021,17 @@ func c09Cases(p c09Prog) []Case {
 	}
 	replay := "None"
 	if res.Ops != "" && res.Unsorted != nil {
-		replay = fmt.Sprintf("(Some (%s,\n   (%s, %s, %s)))", res.Ops, res.Unsorted.coqStore(), c09NatList(res.Unsorted.Objs), res.Unsorted.coqEdges())
+		replay = fmt.Sprintf("(Some (%s,\n   (%s, %s, %s, %s)))", res.Ops, res.Unsorted.coqStore(), c09NatList(res.Unsorted.Objs), res.Unsorted.coqEdges(), c09NatList(res.Unsorted.Tabs))
 	}
 	sorts := "[" + strings.Join(res.Sorts, "; ") + "]"
 	c1 := Case{Class: p.Class, Input: input, Impl: map[string]any{"boards": impl, "replayed_ops": res.NOps}, Key: p.Text, ImplFail: res.Fail,
 		Nontrivial: nobj >= 2 && (ncont > 0 || nedge > 0)}
 	c1.Coq = fmt.Sprintf("CStruct %s\n   %s\n   %s\n   %s", res.Boards[0].coq(), c09CoqBoards(res.Boards[1:]), sorts, replay)
+	for _, b := range res.Boards {
+		if c09RootTableEdge(b) {
+			c1.KF = []string{"C09-root-table-edge"}
+		}
+	}
 	out := []Case{c1}
 	c3 := Case{Class: p.Class + "/root-order", Input: input, Impl: map[string]any{"boards": impl[:1]}, Key: "rootorder:" + p.Text,
 		Nontrivial: len(res.Boards[0].Objs) >= 3}
@@ -991,6 +1050,13 @@ func c09Cases(p c09Prog) []Case {
 		out = append(out, c2)
 	}
 	return out
+}
+
+// Known finding C09-root-table-edge: signature = a board whose root is declared shape: class or
+// shape: sql_table and that has at least one connection.
+func c09RootTableEdge(b *c09Board) bool {
+	s := b.g.Root.Shape.Value
+	return (s == d2target.ShapeClass || s == d2target.ShapeSQLTable) && len(b.g.Edges) > 0
 }
 
 // Known finding C09-order-var-barrier: signature = the root board contains an object whose first
